@@ -120,7 +120,8 @@ theorem C12_ids_fresh : ∀ s, Reach Skeleton.current s → ∀ c x numOut n s',
   split at hs <;> simp at hs
   subst hs
   have hreg : Skeleton.current.stubFuncArgsRegistered = true := by decide
-  simp [newClosures, hreg, List.mem_range'_1] at hm
+  have hfresh : Skeleton.current.clIdFresh = true := by decide
+  simp [newClosures, hreg, hfresh, List.mem_range'_1] at hm
   have hown : s.owner id = none := by
     cases ho : s.owner id with
     | none => rfl
@@ -131,6 +132,25 @@ theorem C12_ids_fresh : ∀ s, Reach Skeleton.current s → ∀ c x numOut n s',
     | true => have := hi.tbl_lt id ht; omega
   · intro c' hm'
     rw [hi.mem_own id c' hm'] at hown; simp at hown
+
+/-- What `clIdFresh` protects against, as a behaviour of the model: with ids derived from the table's current size
+    (that ONE fact flipped), three calls with overlapping lifetimes collide — X and Y are in flight with ids 0 and 1,
+    X returns (the table shrinks to one entry), Z starts and is given id 1 again: Y's and Z's closures share an
+    entry. On the current tree Z gets id 2. -/
+theorem C12_size_derived_ids_collide :
+    (run { Skeleton.current with clIdFresh := false } init
+      [.callStart 0 5 2 1, .callReceive 0, .callSpawn 0, .callWrite 0, .waiterRecvCall 0,
+       .callStart 1 5 2 1, .callReceive 1, .callSpawn 1, .callWrite 1, .waiterRecvCall 1,
+       .ctxCancel 5, .ctxPropagate 0, .waiterGetsCtx 0, .waiterSend 0, .waiterFree 0, .callTakeRes 0 false, .callReturnOk 0,
+       .callStart 2 6 2 1]).map
+      (fun s => decide ((s.calls 1).closures = [1] ∧ (s.calls 2).closures = [1])) = some true ∧
+    (run Skeleton.current init
+      [.callStart 0 5 2 1, .callReceive 0, .callSpawn 0, .callWrite 0, .waiterRecvCall 0,
+       .callStart 1 5 2 1, .callReceive 1, .callSpawn 1, .callWrite 1, .waiterRecvCall 1,
+       .ctxCancel 5, .ctxPropagate 0, .waiterGetsCtx 0, .waiterSend 0, .waiterFree 0, .callTakeRes 0 false, .callReturnOk 0,
+       .callStart 2 6 2 1]).map
+      (fun s => decide ((s.calls 1).closures = [1] ∧ (s.calls 2).closures = [2])) = some true := by
+  constructor <;> decide
 
 theorem C12_one_owner : ∀ s, Reach Skeleton.current s → ∀ id c c',
     id ∈ (s.calls c).closures → id ∈ (s.calls c').closures → c = c' := by
@@ -230,3 +250,4 @@ end Panrpc.Ep
 #print axioms Panrpc.Ep.C12_table_mutex_never_waits_for_a_closure_body
 #print axioms Panrpc.Ep.C02_lock_held_across_closure_blocks_other_calls
 #print axioms Panrpc.Ep.C12_closure_release_never_waits
+#print axioms Panrpc.Ep.C12_size_derived_ids_collide
